@@ -277,6 +277,45 @@ fn rt_block(g: &GBlock) -> V {
         }
         Err(_) => fail(&mut v, "block_header", "decode_err"),
     }
+    // lite form: what a light client is served for a key list, received over the wire
+    let keylist: Vec<saito_core::core::defs::SaitoPublicKey> = b.transactions.iter().step_by(2).filter_map(|t| t.to.first().map(|s| s.public_key)).take(2).collect();
+    // (blocks that already carry placeholders or a replacement count other than 1 are not lite-served
+    // by a full node; a large count also makes the merkle expansion arbitrarily expensive - F35)
+    if b.transactions.iter().any(|t| t.transaction_type == TransactionType::SPV || t.txs_replacements != 1) {
+        return v;
+    }
+    // the lite block's commitment is recomputed from the transactions, so the full block needs a
+    // commitment that matches them (the generated one is arbitrary): take the computed root
+    let mut b = b.clone();
+    b.merkle_root = [0; 32];
+    b.created_hashmap_of_slips_spent_this_block = true;
+    let _ = b.generate();
+    let full_hash = b.hash;
+    match crate::ctx::catch(|| b.generate_lite_block(keylist)) {
+        crate::ctx::Outcome::Panicked(_, _) => fail(&mut v, "lite_block", "generate_panics"),
+        crate::ctx::Outcome::Returned(lite) => {
+            let w = lite.serialize_for_net(BlockType::Full);
+            match Block::deserialize_from_net(&w) {
+                Ok(mut d) => {
+                    if !header_eq(&b, &d) {
+                        fail(&mut v, "lite_block", "header_ne");
+                    }
+                    if d.serialize_for_net(BlockType::Full) != w {
+                        fail(&mut v, "lite_block", "reencode_ne");
+                    }
+                    d.created_hashmap_of_slips_spent_this_block = true;
+                    let _ = d.generate();
+                    if d.hash != full_hash || d.pre_hash != b.pre_hash {
+                        fail(&mut v, "lite_block", "hash_ne");
+                    }
+                    if verify_signature(&b.pre_hash, &b.signature, &b.creator) != verify_signature(&d.pre_hash, &d.signature, &d.creator) {
+                        fail(&mut v, "lite_block", "sigverdict_ne");
+                    }
+                }
+                Err(_) => fail(&mut v, "lite_block", "decode_err"),
+            }
+        }
+    }
     v
 }
 
